@@ -44,6 +44,7 @@ class Net:
         self.late = []           # (node, child) presented after the node's first wake-up
         self.sched = {}          # node -> (t, v) believed scheduled
         self.images = {}         # (t, v) -> number of blocks
+        self.crcs = {}           # (t, v) -> CRC-16 of the padded image (what the gateway advertises)
         self.nextblk = {}        # node -> next block index of the sequential fetch
         self.backlog = 0         # threaded flavour: estimate of jobs waiting for the pump
         self.subs = [s for s in SET_SUBS if s <= MAXSUB[1][self.vi]]
@@ -327,6 +328,9 @@ class Net:
         n = self.a_node(0.3) if n is None else n
         t, v = self.a_tv(n) if r.random() < 0.5 else r.choice([(1, 1), (2, 2), (10, 3), (65535, 0)])
         pay = hexw(t, v, r.choice([0, 8, 16, 1000]), r.randrange(0, 65536), r.choice([0x0102, 0xFFFF, 0]))
+        if (t, v) in self.crcs and r.random() < 0.35:
+            # the node reports exactly the image that is scheduled (same block count and CRC: a forced re-flash)
+            pay = hexw(t, v, self.images[(t, v)], self.crcs[(t, v)], 0x0102)
         if malformed is None:
             malformed = r.random() < 0.3
         if malformed:
@@ -390,6 +394,9 @@ class Net:
             return
         if data is not None:
             self.images[(tw, vw)] = (len(data) // 128 + 1) * 8
+            import crcmod.predefined
+            padded = bytes(data) + b"\xff" * (16 * self.images[(tw, vw)] - len(data))
+            self.crcs[(tw, vw)] = crcmod.predefined.mkCrcFun("modbus")(padded)
         if (tw, vw) in self.images:
             for n in nids:
                 if n in self.known:
@@ -571,6 +578,26 @@ def directed_cases(ctx, tag, n, history, versions, length=(20, 60), mqtt_rate=0.
         cfg = make_cfg(rng, versions, mqtt_rate)
         ops = history(rng, cfg, rng.randrange(*length))
         cases.append({"id": f"{tag}-{ctx.seed}-{ctx.scale}-{i}", "cfg": cfg, "ops": ops})
+    return cases
+
+
+def with_restarts(ctx, cases, tag, rate=0.3):
+    """For a share of the cases: persistence (json / pickle) and ONE clean stop + start in the middle of the history,
+    after which the nodes that had announced smart sleep announce it again (the transient state - desired values,
+    hold queues, reboot flags, firmware sessions - does not survive a restart; the persisted tree does).
+    Marks the chosen cases with c["_fmt"]; the caller assigns the files (scenarios_a.assign_persist)."""
+    for i, c in enumerate(cases):
+        r = ctx.rng(tag, "restart", i)
+        if r.random() >= rate or len(c["ops"]) < 12 or c["cfg"].get("persist"):
+            continue
+        ops = c["ops"]
+        k = r.randrange(len(ops) // 3, len(ops))
+        wakes = [o for o in ops[:k] if o[0] == "recv" and (";3;0;22;" in o[1] or ";3;0;32;" in o[1])]
+        again = []
+        for o in r.sample(wakes, min(len(wakes), r.choice([0, 1, 2, 3]))):
+            again += [o] + ([("pump",), ("pump",)] if c["cfg"]["flavour"] == "sync" else [])
+        c["ops"] = ops[:k] + [("restart",)] + again + ops[k:]
+        c["_fmt"] = r.choice(["pickle", "pickle", "json"])
     return cases
 
 
